@@ -306,11 +306,120 @@ def _reposition(f):
     end(f)
 
 
+def _simple_arg(e):
+    return isinstance(e, (ast.Name, ast.Constant)) or (isinstance(e, ast.Attribute) and _simple_arg(e.value))
+
+
+def inline_new_helpers(tree, known):
+    """Undo "extract function": a module-level function that the reference tree does not have, whose body is a plain
+    sequence of statements (optionally ending in `return <expr>`), is spliced back into the call sites that use it as a
+    statement (`helper(a, b)`, `x = helper(a, b)`) with simple arguments - provided its local names do not collide with
+    the caller's.  The definition itself stays.  Returns notes."""
+    notes = []
+    if os.environ.get('VERIF_NO_INLINE'):
+        return notes
+    helpers = {}
+    for st in tree.body:
+        if isinstance(st, ast.FunctionDef) and st.name not in known and not st.decorator_list:
+            a = st.args
+            if a.vararg or a.kwarg or a.kwonlyargs or a.posonlyargs:
+                continue
+            body = [x for x in st.body if not (isinstance(x, ast.Expr) and isinstance(x.value, ast.Constant))]
+            if not body or any(isinstance(y, (ast.FunctionDef, ast.AsyncFunctionDef, ast.ClassDef, ast.Yield, ast.YieldFrom, ast.Global, ast.Nonlocal))
+                               for x in body for y in ast.walk(x)):
+                continue
+            rets = [y for x in body for y in ast.walk(x) if isinstance(y, ast.Return)]
+            if len(rets) > 1 or (rets and rets[0] is not body[-1]):
+                continue
+            helpers[st.name] = (st, body)
+    if not helpers:
+        return notes
+    import copy
+    for qual, f in top_functions(tree):
+        if f.name in helpers:
+            continue
+        for holder in ast.walk(f):
+            for fld in ('body', 'orelse', 'finalbody'):
+                blk = getattr(holder, fld, None)
+                if not isinstance(blk, list):
+                    continue
+                i = 0
+                while i < len(blk):
+                    st = blk[i]
+                    call = None
+                    if isinstance(st, ast.Expr) and isinstance(st.value, ast.Call):
+                        call = st.value
+                    elif isinstance(st, ast.Assign) and len(st.targets) == 1 and isinstance(st.value, ast.Call):
+                        call = st.value
+                    if call is None or not isinstance(call.func, ast.Name) or call.func.id not in helpers:
+                        i += 1
+                        continue
+                    h, body = helpers[call.func.id]
+                    params = [a.arg for a in h.args.args]
+                    bound = {}
+                    okc = len(call.args) <= len(params) and all(_simple_arg(a) for a in call.args) and \
+                        all(k.arg in params and _simple_arg(k.value) for k in call.keywords)
+                    if okc:
+                        for pn, av in zip(params, call.args):
+                            bound[pn] = av
+                        for k in call.keywords:
+                            bound[k.arg] = k.value
+                        defaults = dict(zip(params[len(params) - len(h.args.defaults):], h.args.defaults))
+                        for pn in params:
+                            if pn not in bound and pn in defaults:
+                                bound[pn] = defaults[pn]
+                        okc = all(pn in bound for pn in params)
+                    hl = {y.id for x in body for y in ast.walk(x) if isinstance(y, ast.Name) and isinstance(y.ctx, ast.Store)} - set(params)
+                    # the helper's own locals must be free in the caller (apart from this statement's target)
+                    used = {y.id for y in ast.walk(f) if isinstance(y, ast.Name)} - {y.id for y in ast.walk(st) if isinstance(y, ast.Name)}
+                    if not okc or (hl & used) or any(isinstance(y, ast.Name) and isinstance(y.ctx, ast.Store) and y.id in params for x in body for y in ast.walk(x)):
+                        i += 1
+                        continue
+                    new = []
+                    for x in body:
+                        x2 = copy.deepcopy(x)
+
+                        class _P(ast.NodeTransformer):
+                            def visit_Name(self, node):
+                                if node.id in bound and isinstance(node.ctx, ast.Load):
+                                    return ast.copy_location(copy.deepcopy(bound[node.id]), node)
+                                return node
+                        x2 = _P().visit(x2)
+                        if isinstance(x2, ast.Return):
+                            if isinstance(st, ast.Assign) and x2.value is not None:
+                                x2 = ast.Assign(targets=st.targets, value=x2.value)
+                            elif x2.value is None or _simple_arg(x2.value):
+                                continue
+                            else:
+                                x2 = ast.Expr(value=x2.value)
+                        for y in ast.walk(x2):
+                            if hasattr(y, 'lineno') or isinstance(y, (ast.expr, ast.stmt)):
+                                y.lineno, y.col_offset = st.lineno, st.col_offset
+                                y.end_lineno, y.end_col_offset = st.end_lineno, st.end_col_offset
+                        new.append(x2)
+                    if isinstance(st, ast.Assign) and not any(isinstance(x, ast.Return) for x in body):
+                        i += 1
+                        continue
+                    blk[i:i + 1] = new
+                    notes.append('%s: call of the new helper %s() spliced back in' % (qual, h.name))
+                    i += len(new)
+    if notes:
+        # a helper that is no longer called anywhere has been undone completely: its definition goes as well
+        for name, (h, _) in helpers.items():
+            still = any(isinstance(c, ast.Name) and c.id == name for st in tree.body if st is not h for c in ast.walk(st))
+            if not still and h in tree.body:
+                tree.body.remove(h)
+        ast.fix_missing_locations(tree)
+    return notes
+
+
 def canonicalise(module_name, tree):
     """rename locals back to the reference names where only names changed, then substitute back temporaries that the
     reference tree does not have; returns list of notes"""
     notes = []
     r = ref().get(module_name, {})
+    if r:
+        notes += ['%s.%s' % (module_name, x) for x in inline_new_helpers(tree, {q for q in r if '.' not in q})]
     mg = module_globals_of(tree)
     for qual, f in top_functions(tree):
         want = r.get(qual)
@@ -348,6 +457,11 @@ def _rename_back(f, want, mg):
     if not mapping:
         return 0
     if len(set(mapping.values())) != len(mapping):
+        return 0
+    # a rename introduces names the reference does not have and retires names the function no longer has; when the
+    # "mapping" merely permutes names both trees use (a local now bound earlier than before), it is not a rename
+    want_names, cur_names = {nm for nm, _ in want}, {nm for nm, _ in cur}
+    if any(a_ in want_names or b_ in cur_names for a_, b_ in mapping.items()):
         return 0
     used = {n.id for n in ast.walk(f) if isinstance(n, ast.Name)} | {a.arg for n in ast.walk(f) if isinstance(n, ast.arguments)
                                                                        for a in n.posonlyargs + n.args + n.kwonlyargs}
